@@ -45,7 +45,9 @@ class GenState(object):
         # environment habits of this scenario: a `stop()` before the first `start()` (state left over from a
         # failed call), and a coordinator that answers heartbeats late (so that a heartbeat reply can arrive
         # after the member has moved on: rejoined, changed generation, stopped)
-        self.pre_stop = rng.random() < 0.06
+        self.pre_stop = rng.random() < 0.1
+        # API calls on a member that has stopped for good (RestopError / RestartError are observations)
+        self.post_calls = rng.choice([0, 0, 1, 2, 3])
         self.hb_release = rng.choice([1.0, 1.0, 0.15, 0.05])
 
     def forget(self):
@@ -133,11 +135,14 @@ def choose(rng, gs, world, p_ok, p_stop, p_cerr):
             if k in ("unknownMemberId", "invalidGroupId"):
                 gs.forget()
             return ["consumerErr %d %s" % (rng.choice(e["cerr"]), k)]
-    elif r < p_stop + p_cerr + 0.01:
+    elif r < p_stop + p_cerr + 0.02:
         return ["start"]  # RestartError, or a restart after stop
-    elif r < p_stop + p_cerr + 0.025 and e["quirk"]:
+    elif r < p_stop + p_cerr + 0.035 and e["quirk"]:
         return ["consumerQuirk %d %s" % (rng.choice(e["quirk"]), rng.choice(["raises", "fails"]))]
     if not acts:
+        if g._start_d is None and g._stopping and gs.post_calls > 0:
+            gs.post_calls -= 1
+            return [rng.choice(["start", "stop"])]
         return None
     a = rng.choice(acts)
     if a[0] == "reply":
